@@ -15,7 +15,7 @@ use crate::util::{self, Fnv, Rng, J};
 pub fn make_case(seed: u64, i: u64) -> Case {
   let mut rng = Rng::derive(seed ^ 0xC16, i);
   // wide programs: many dependencies per task, many tasks, so that an unordered container would show
-  let o = GenOpts { max_tasks: 10, exact_only: rng.chance(1, 2), max_ops: 8 };
+  let o = GenOpts { max_tasks: 10, exact_only: rng.chance(1, 2), max_ops: 8, max_src: 3, max_gen: 3 };
   let prog = loop {
     let p = gen::gen_program(&mut rng, &o);
     if p.n_tasks() >= 5 { break p; }
